@@ -6,6 +6,7 @@ agent/consul/filter.go) and CV/FilterExpiry.lean (token resolution with cache, s
 -/
 import CV.Proofs.Filter
 import CV.FilterExpiry
+import CV.FilterACL
 import CV.Generated.FactsFilter
 namespace CV.Filter
 
@@ -536,6 +537,162 @@ example : tokenRead [tokExpired] "s1" 1012 = none ∧ tokenRead [tokValid] "s1" 
     reapOk [tokExpired, { tokValid with secret := "s2", accessor := "a2" }] 1012 ["a2"] = false := by decide
 /-- primary unreachable, nothing cached, down policy allow -/
 example : (resolveToken ⟨4, .allow⟩ (.remote .error) [] "s1" 1012).2 = .down true := by decide
+
+/-! ### The front of `ResolveToken` and `filterACL`: resolution and filtering composed -/
+
+/-- Through the public entry point, too: whatever the surroundings (ACLs on/off, token store, locally
+    managed tokens), a *token* identity that is honoured is not expired at resolution time. -/
+theorem entry_granted_not_expired (env : Env) (cfg : Cfg) (store : Option (List Token)) (c c' : Cache)
+    (script : List Round) (secret : String) (now : Nat) (t : Token)
+    (h : resolveTokenEntry env cfg store c script secret now = (c', .token (.granted t))) :
+    t.isExpired now = false := by
+  unfold resolveTokenEntry at h
+  by_cases h1 : (!env.aclsEnabled) = true
+  · simp [h1] at h
+  · by_cases h2 : isRootName secret = true
+    · simp [h1, h2] at h
+    · simp only [h1, h2, Bool.false_eq_true, if_false] at h
+      generalize (if secret = "" then anonymousSecret else secret) = s' at h
+      split at h
+      · simp at h
+      · split at h
+        · simp at h
+        · simp only [Prod.mk.injEq, Resolved.token.injEq] at h
+          exact granted_not_expired_all_rounds cfg store c c' script s' now t (Prod.ext h.1 h.2)
+
+/-- The empty secret is the anonymous token: same outcome, same cache effects — so an anonymous token
+    is subject to the same expiry rule as any other. -/
+theorem empty_secret_is_anonymous (env : Env) (cfg : Cfg) (store : Option (List Token)) (c : Cache)
+    (script : List Round) (now : Nat) :
+    resolveTokenEntry env cfg store c script "" now =
+      resolveTokenEntry env cfg store c script anonymousSecret now := by
+  have h1 : isRootName "" = false := by decide
+  have h2 : isRootName anonymousSecret = false := by decide
+  simp [resolveTokenEntry, h1, h2]
+
+/-- With ACLs enabled the names of the root authorizers are never accepted as tokens. -/
+theorem root_names_denied (env : Env) (cfg : Cfg) (store : Option (List Token)) (c : Cache)
+    (script : List Round) (secret : String) (now : Nat) (he : env.aclsEnabled = true)
+    (hr : isRootName secret = true) :
+    resolveTokenEntry env cfg store c script secret now = (c, .rootDenied) := by
+  simp [resolveTokenEntry, he, hr]
+
+/-- Every resolution that hands out an authorizer is of one of five kinds, and the only kind that
+    rests on a token identity carries an unexpired one. -/
+theorem authorizer_sources (tokenAuthz : Token → Authz) (env : Env) (cfg : Cfg) (store : Option (List Token))
+    (c c' : Cache) (script : List Round) (secret : String) (now : Nat) (r : Resolved) (a : Authz)
+    (h : resolveTokenEntry env cfg store c script secret now = (c', r)) (ha : r.authz tokenAuthz = some a) :
+    (r = .aclsDisabled ∧ env.aclsEnabled = false) ∨ r = .agentRecovery ∨ r = .serverManagement ∨
+    (∃ b, r = .token (.down b)) ∨ (∃ t, r = .token (.granted t) ∧ t.isExpired now = false ∧ a = tokenAuthz t) := by
+  cases r with
+  | aclsDisabled =>
+    left; refine ⟨rfl, ?_⟩
+    unfold resolveTokenEntry at h
+    by_cases he : env.aclsEnabled = true
+    · simp only [he, Bool.not_true, Bool.false_eq_true, if_false] at h
+      repeat' split at h
+      all_goals simp at h
+    · simpa using he
+  | rootDenied => simp [Resolved.authz] at ha
+  | agentRecovery => right; left; rfl
+  | serverManagement => right; right; left; rfl
+  | token o =>
+    cases o with
+    | granted t =>
+      right; right; right; right
+      refine ⟨t, rfl, entry_granted_not_expired env cfg store c c' script secret now t h, ?_⟩
+      simpa [Resolved.authz] using ha.symm
+    | down b => right; right; right; left; exact ⟨b, rfl⟩
+    | notFound => simp [Resolved.authz] at ha
+    | denied => simp [Resolved.authz] at ha
+    | noScript => simp [Resolved.authz] at ha
+
+/-- MAIN (composition): what `filterACL` leaves in a response is exactly what the authorizer of the
+    resolution may read — and when that authorizer was compiled from a token, the token was not
+    expired when the request was served. Nothing is filtered "on behalf of" an expired token. -/
+theorem filterACL_exact (tokenAuthz : Token → Authz) (env : Env) (cfg : Cfg) (store : Option (List Token))
+    (c c' : Cache) (script : List Round) (secret : String) (now : Nat) (subj out : Resp)
+    (hwf : subj.wf = true) (hi : subj.isIxnMatch = false)
+    (h : filterACL tokenAuthz env cfg store c script secret now subj = (c', .ok out)) :
+    ∃ r a, resolveTokenEntry env cfg store c script secret now = (c', r) ∧ r.authz tokenAuthz = some a ∧
+      entries out = (entries subj).filter (Entry.readable a) ∧
+      (∀ t, r.identity = some t → t.isExpired now = false) := by
+  unfold filterACL at h
+  generalize hres : resolveTokenEntry env cfg store c script secret now = res at h
+  obtain ⟨c1, r⟩ := res
+  simp only at h
+  split at h
+  · simp at h
+  · rename_i a ha
+    split at h
+    · rename_i o ho
+      simp only [Prod.mk.injEq, FilterRes.ok.injEq] at h
+      obtain ⟨hc, hout⟩ := h
+      subst hc hout
+      refine ⟨r, a, rfl, ha, ?_, ?_⟩
+      · have : o = filterCore a subj := by
+          unfold filterResp at ho
+          split at ho <;> simp at ho
+          exact ho.symm
+        rw [this]; exact filter_exact a subj hwf hi
+      · intro t ht
+        cases r with
+        | token o' =>
+          cases o' with
+          | granted t' =>
+            simp only [Resolved.identity, Option.some.injEq] at ht
+            subst ht
+            exact entry_granted_not_expired env cfg store c c1 script secret now t' hres
+          | _ => simp [Resolved.identity] at ht
+        | _ => simp [Resolved.identity] at ht
+    · simp at h
+
+/-- A request carrying an expired token that is still in the state store gets an error from
+    `filterACL`, never a filtered response (server side; ACLs enabled, not a locally managed token). -/
+theorem filterACL_expired_in_store_errors (tokenAuthz : Token → Authz) (env : Env) (cfg : Cfg) (store : List Token)
+    (c : Cache) (r : Round) (rest : List Round) (t : Token) (now : Nat) (subj : Resp)
+    (he : env.aclsEnabled = true) (hroot : isRootName t.secret = false) (hne : t.secret ≠ "")
+    (hloc : env.hasTokenStore = false)
+    (hfind : store.find? (fun u => u.secret = t.secret) = some t) (hexp : t.isExpired now = true) :
+    (filterACL tokenAuthz env cfg (some store) c (r :: rest) t.secret now subj).2 = .err (.token .notFound) := by
+  have hl := loop_expired_in_store_not_found cfg .token store 4 c r rest t now hfind hexp
+  have : (resolveTokenAll cfg (some store) c (r :: rest) t.secret now).2 = .notFound := by
+    unfold resolveTokenAll
+    generalize hg : resolveLoop cfg .token (some store) maxRetries c (r :: rest) t.secret now = g at *
+    obtain ⟨c1, o⟩ := g
+    have : o = .notFound := by
+      have hl' := hl
+      rw [show (4 + 1 : Nat) = maxRetries from rfl, hg] at hl'
+      exact hl'
+    subst this; rfl
+  unfold filterACL resolveTokenEntry
+  generalize hg : resolveTokenAll cfg (some store) c (r :: rest) t.secret now = g at this
+  obtain ⟨c1, o⟩ := g
+  simp only at this
+  subst this
+  simp [he, hroot, hne, hloc, hg, Resolved.authz]
+
+/-- Non-vacuity: a granted resolution filters (and keeps exactly the grants); the same token one unit
+    after its expiry gets the error; ACLs disabled filters nothing; the empty secret resolves the stored
+    anonymous token. -/
+def exEnv : Env := ⟨true, true, "recovery", "srv"⟩
+def exTokAuthz (t : Token) : Authz :=
+  ⟨fun _ => false, fun s => t.grants.contains s, fun _ => false, fun _ => false, fun _ => false, fun _ => false, false, false⟩
+def exSubj : CV.Filter.Resp := .serviceList ["web", "db", "web"] false
+
+example : (filterACL exTokAuthz exEnv ⟨4, .deny⟩ (some [tokValid]) [] (List.replicate 5 ⟨.notFound, .ok⟩) "s1" 1012 exSubj).2
+    = .ok (.serviceList ["web", "web"] true) := by decide
+example : (filterACL exTokAuthz exEnv ⟨4, .deny⟩ (some [tokValid]) [] (List.replicate 5 ⟨.notFound, .ok⟩) "s1" 1020 exSubj).2
+    = .err (.token .notFound) := by decide
+example : (filterACL exTokAuthz { exEnv with aclsEnabled := false } ⟨4, .deny⟩ (some []) [] [] "whatever" 1012 exSubj).2
+    = .ok exSubj := by decide
+example : (resolveTokenEntry exEnv ⟨4, .deny⟩ (some [{ tokValid with secret := "anonymous" }]) [] (List.replicate 5 ⟨.notFound, .ok⟩) "" 1012).2
+    = .token (.granted { tokValid with secret := "anonymous" }) := by decide
+example : (resolveTokenEntry exEnv ⟨4, .deny⟩ (some []) [] [] "recovery" 1012).2 = .agentRecovery ∧
+    (resolveTokenEntry exEnv ⟨4, .deny⟩ (some []) [] [] "srv" 1012).2 = .serverManagement ∧
+    (resolveTokenEntry exEnv ⟨4, .deny⟩ (some []) [] [] "manage" 1012).2 = .rootDenied ∧
+    (resolveTokenEntry { exEnv with hasTokenStore := false } ⟨4, .deny⟩ (some []) [] (List.replicate 5 ⟨.notFound, .ok⟩) "srv" 1012).2
+      = .token .notFound := by decide
 
 end CV.Filter.Expiry
 
